@@ -79,7 +79,7 @@ package choquet
 //@   property C03 C20
 //@   panics_iff [capacity_outside_the_unit_interval] v < 0.0 || v > 1.0
 //@ func getWeightForCombinedCriterion
-//@   property C03 C20
+//@   property C03 C20 C07 C18
 //@   panics_iff [capacity_missing] !(*weightKey in *weights)
 //@   ensures [that_capacity] result == (*weights)[*weightKey]
 //@ func prepareWeights
@@ -106,7 +106,7 @@ package choquet
 //@   trusted
 //@   ensures [new_lists] result != nil && fresh(result) && fresh(*result) && forall i int :: 0 <= i && i < len(*result) ==> fresh((*result)[i])
 //@ func criterionKey
-//@   property C07 C18 C03
+//@   property C07 C18 C03 C20
 //@   assigns *criteria
 //@   ensures [same_list_object] *criteria == old(*criteria)
 //@ func (*ChoquetIntegralBiasListener).OnCriterionAdded
